@@ -605,6 +605,10 @@ void BW_MidiSequencer::buildSmfSetupReset(size_t trackCount)
     m_currentPosition.wait = 0.0;
     m_currentPosition.track.clear();
     m_currentPosition.track.resize(trackCount);
+
+    // Saved positions refer to rows of the song that has just been dropped
+    m_trackBeginPosition = m_currentPosition;
+    m_loopBeginPosition = m_currentPosition;
 }
 
 bool BW_MidiSequencer::buildSmfTrackData(const std::vector<std::vector<uint8_t> > &trackData)
@@ -663,6 +667,7 @@ bool BW_MidiSequencer::buildSmfTrackData(const std::vector<std::vector<uint8_t> 
                 int len = snprintf(error, 150, "buildTrackData: Can't read variable-length value at begin of track %d.\n", (int)tk);
                 if((len > 0) && (len < 150))
                     m_parsingErrorsString += std::string(error, (size_t)len);
+                buildSmfSetupReset(0); // Don't leave a half-built song
                 return false;
             }
 
@@ -689,6 +694,7 @@ bool BW_MidiSequencer::buildSmfTrackData(const std::vector<std::vector<uint8_t> 
                 int len = snprintf(error, 150, "buildTrackData: Fail to parse event in the track %d.\n", (int)tk);
                 if((len > 0) && (len < 150))
                     m_parsingErrorsString += std::string(error, (size_t)len);
+                buildSmfSetupReset(0); // Don't leave a half-built song
                 return false;
             }
 
